@@ -4,7 +4,7 @@
    oracle: on every listed domain assignment the energy of the implementation's own
    result equals ordinary arithmetic on the energies of the operands (`denote`). *)
 From Coq Require Import List ZArith QArith Qcanon Bool Arith.
-From Dimod Require Import Base.Util Model.Poly Model.Sym Model.SymStore.
+From Dimod Require Import Base.Util Model.Poly Model.Sym Model.SymStore Model.OpsLang Gen.Gen_Ops Model.Ops.
 Import ListNotations.
 
 Inductive ores := ONum (q : Qc) | OMdl (c : cls) (t : tab) (o : obs) | OView (t : tab) (o : obs) | OErr (e : err).
@@ -46,7 +46,24 @@ Definition check_oracle (c : case) : bool :=
   | OErr _ => true
   end.
 
-Definition check (c : case) : bool := check_corr c && check_oracle c.
+(* the same comparison with the expression evaluated through the operator methods as translated
+   from the source (Gen/Gen_Ops.v) and the operator protocol of Model/Ops.v *)
+Definition check_gen (c : case) : bool :=
+  match eval_gen (c_expr c), c_res c with
+  | Ok (VNum q), ONum q' => Qc_eqb q q'
+  | Ok (VMdl m), OMdl k t o =>
+      cls_eqb (m_cls m) k && tab_eqb (m_tab m) t
+      && poly_coeff_eqb (c_n c) (m_poly m) (obs_poly o)
+      && poly_pairs_eqb (c_n c) (m_poly m) (obs_poly o)
+  | Ok (VView m), OView t o =>
+      tab_eqb (m_tab m) t
+      && poly_coeff_eqb (c_n c) (m_poly m) (obs_poly o)
+      && poly_pairs_eqb (c_n c) (m_poly m) (obs_poly o)
+  | Err e, OErr e' => err_eqb e e'
+  | _, _ => false
+  end.
+
+Definition check (c : case) : bool := check_corr c && check_oracle c && check_gen c.
 
 (* ---------- comparison objects handed to ConstrainedQuadraticModel.add_constraint ---------- *)
 Inductive ocmp := OCmp (t : tab) (o : obs) (s : csense) (r : Qc) | OCErr (e : err).
